@@ -188,6 +188,62 @@ pub fn run(env: &Env, prop: &str, tier: &str) -> i32 {
             }
         }
     }
+    if prop == "C10" {
+        // inner shapes the run-time corpus does not hold (maps, arrays, Option, tuples), with and without IntoIterator
+        let units = vmodel::cf::c10_shape_units();
+        let res = match crate::cf::verdicts(env, &env.work.join("gen/c10shape"), "c10s", &units, false, true) {
+            Ok(r) => r,
+            Err(e) => {
+                eprintln!("INCONCLUSIVE: {e}");
+                return 2;
+            }
+        };
+        let (viols, _drift) = crate::cprops::judge_with_drift("C10", &units, &res);
+        rep.evaluations += units.len() as u64;
+        rep.nontrivial += units.len() as u64;
+        *rep.classes.entry("inner-shape-unit".into()).or_insert(0) += units.len() as u64;
+        for v in viols {
+            rep.viols.push(vlib_report::Viol {
+                prop: "C10".into(),
+                decl_id: v.unit.id.clone(),
+                type_name: "T".into(),
+                decl: v.unit.decl.clone(),
+                signature: v.signature.clone(),
+                case: crate::cprops::case_json("C10", &v, false),
+                expected: v.expected.clone(),
+                actual: v.actual.clone(),
+                shrunk: "none".into(),
+            });
+        }
+    }
+    if prop == "C13" {
+        // no Borrow impl beyond the borrowed forms the run-time check compares against
+        let units = vmodel::cf::c13_gate_units();
+        let res = match crate::cf::verdicts(env, &env.work.join("gen/c13gate"), "c13g", &units, false, false) {
+            Ok(r) => r,
+            Err(e) => {
+                eprintln!("INCONCLUSIVE: {e}");
+                return 2;
+            }
+        };
+        let (viols, _drift) = crate::cprops::judge_with_drift("C13", &units, &res);
+        rep.evaluations += units.len() as u64;
+        rep.nontrivial += units.len() as u64;
+        *rep.classes.entry("borrowed-form-unit".into()).or_insert(0) += units.len() as u64;
+        for v in viols {
+            rep.viols.push(vlib_report::Viol {
+                prop: "C13".into(),
+                decl_id: v.unit.id.clone(),
+                type_name: "T".into(),
+                decl: v.unit.decl.clone(),
+                signature: v.signature.clone(),
+                case: crate::cprops::case_json("C13", &v, false),
+                expected: v.expected.clone(),
+                actual: v.actual.clone(),
+                shrunk: "none".into(),
+            });
+        }
+    }
     if prop == "C16" {
         // message and validator resolve the bound tokens in the same scope (declarations inside a fn body)
         let units = vmodel::cf::c16_scope_units();
